@@ -146,6 +146,13 @@ def cond_write_fact(loop, name):
     return hit[0]
 
 
+def uncond_scalar_write(loop, name):
+    """AST fact: `name` is a scalar assigned at the top level of the loop
+    body (not inside an IF or inner loop)."""
+    return any(s[0] == "assign" and s[1][0] == "var" and
+               s[1][1].lower() == name for s in loop[5])
+
+
 THREADS = [1, 2, 4, 8]
 SCHEDULES = ["static", "static,1", "dynamic,1", "guided"]
 
@@ -300,6 +307,13 @@ def batch(arg):
                           if cond_write_fact(floops[k], v)]
                     if fp:
                         mech = "scalar.cond_write_privatised"
+                    elif var not in masked and uncond_scalar_write(
+                            floops[k], var) and not any(
+                                var == x_[0] for x_ in []):
+                        # the variable whose final value differs is a scalar
+                        # assigned (unconditionally) in every iteration that
+                        # the emitted clauses leave SHARED
+                        mech = "scalar.written_each_iteration_left_shared"
                     part.violation({
                         "kind": "parallel_result_differs_from_serial",
                         "mechanism": mech,
